@@ -152,32 +152,35 @@ def compMonoBits (depth frameSize : Nat) (xs coefs : List Int) (numU : Nat) : Bi
     (if bs ≠ 0 then (monoShift depth xs).flatMap fun s => bitsOf s (8 * bs) else []) ++
     dynComp stdAg (pcBlock (monoMix depth xs) coefs numU chanBits 9).1 chanBits
 
+/-- one candidate order of EncodeMono's search: 7 converge rounds of pc_block on n / 32 samples, one on n / 8, the bits of
+    those residuals times 8 plus the coefficients: (estimate, coefficient rows) -/
+def monoTry (chanBits : Nat) (mix : List Int) (n : Nat) (rows : List (List Int)) (numU : Nat) : Nat × List (List Int) :=
+  let a := pcRepeat (mix.take (n / 32)) rows (numU - 1) numU chanBits 7
+  let b := pcRepeat (mix.take (n / 8)) a.2 (numU - 1) numU chanBits 1
+  (8 * (dynComp stdAg b.1 chanBits).length + 16 * numU, b.2)
+
+/-- the search: order 4, then order 8 (taken only when strictly smaller): (order, estimate, rows) -/
+def monoSearch (chanBits : Nat) (mix : List Int) (n : Nat) (rows : List (List Int)) : Nat × Nat × List (List Int) :=
+  let r4 := monoTry chanBits mix n rows 4
+  let r8 := monoTry chanBits mix n r4.2 8
+  if r8.1 < r4.1 then (8, r8.1, r8.2) else (4, r4.1, r8.2)
+
 /-- EncodeMono: the element behind tag and instance tag; `xs` = the channel's caller ints -/
 def encMono (depth frameSize : Nat) (st : EncChan) (xs : List Int) : Bits × EncChan :=
   let n := xs.length
   let bs := bytesShiftedOf depth
-  let shift := 8 * bs
-  let chanBits := depth - shift
-  let partialFrame := n ≠ frameSize
+  let chanBits := depth - 8 * bs
   let mix := monoMix depth xs
-  -- search over the predictor order
-  let try1 (rows : List (List Int)) (numU : Nat) : Nat × List (List Int) :=
-    let (_, rows) := pcRepeat (mix.take (n / 32)) rows (numU - 1) numU chanBits 7
-    let (pc, rows) := pcRepeat (mix.take (n / 8)) rows (numU - 1) numU chanBits 1
-    (8 * (dynComp stdAg pc chanBits).length + 16 * numU, rows)
-  let (b4, rows) := try1 st.coefsU 4
-  let (b8, rows) := try1 rows 8
-  let (bestU, minBits) := if b8 < b4 then (8, b8) else (4, b4)
-  let minBits := minBits + 32 + (if partialFrame then 32 else 0) + (if bs ≠ 0 then n * shift else 0)
-  let escapeBits := n * depth + (if partialFrame then 32 else 0) + 16
-  let escBits := encMonoEsc depth n xs
-  if minBits ≥ escapeBits then (escBits, { st with coefsU := rows })
+  let sr := monoSearch chanBits mix n st.coefsU
+  let minBits := sr.2.1 + 32 + (if n ≠ frameSize then 32 else 0) + (if bs ≠ 0 then n * (8 * bs) else 0)
+  let escapeBits := n * depth + (if n ≠ frameSize then 32 else 0) + 16
+  if minBits ≥ escapeBits then (encMonoEsc depth n xs, { st with coefsU := sr.2.2 })
   else
-    let coefs := rows.getD (bestU - 1) []
-    let rows1 := rows.set (bestU - 1) (pcBlock mix coefs bestU chanBits 9).2
-    let bits := compMonoBits depth frameSize xs coefs bestU
+    let coefs := sr.2.2.getD (sr.1 - 1) []
+    let rows1 := sr.2.2.set (sr.1 - 1) (pcBlock mix coefs sr.1 chanBits 9).2
     -- "compressed frame too big": back to the start of the element
-    if bits.length ≥ escapeBits then (escBits, { st with coefsU := rows1 }) else (bits, { st with coefsU := rows1 })
+    if (compMonoBits depth frameSize xs coefs sr.1).length ≥ escapeBits then (encMonoEsc depth n xs, { st with coefsU := rows1 })
+    else (compMonoBits depth frameSize xs coefs sr.1, { st with coefsU := rows1 })
 
 /-- the mixing of a pair for the encoder: (u, v, shifted-off (l, r)) per frame -/
 def mixPairs (depth bs mixres : Nat) (ls rs : List Int) : List Int × List Int × List (Nat × Nat) :=
